@@ -78,6 +78,12 @@ def props_of_error(built, specs_by_key, e):
             # a callee's precondition failed at a call site in `fn`: the caller is at fault
             return fprops, '%s#safety(call:%s)' % (fn, cid)
         return list(c.props), cid
+    # a woven proof step (assert in a hint block) that no longer goes through
+    for sp in e.get('spans', []):
+        if sp['file'] == 'all.rs' and 0 < sp['line'] <= len(built.origin):
+            o = built.origin[sp['line'] - 1]
+            if o and o[0] == 'contract' and (len(o) < 4 or o[3] is None) and 'assert' in e.get('msg', ''):
+                return fprops, '%s#proof-step(%s:%s)' % (fn, o[1], o[2])
     return fprops, '%s#safety' % fn
 
 
